@@ -73,23 +73,23 @@ func (r *RunResult) firstOwned() *FailureRec {
 }
 
 type Summary struct {
-	Kind        string           `json:"kind"`
-	Runs        int              `json:"runs"`
-	Steps       int64            `json:"steps"`
-	Points      int64            `json:"points"`
-	SimMs       int64            `json:"sim_ms"`
-	WallUs      int64            `json:"wall_us"`
-	Counters    map[string]int64 `json:"counters"`
-	Digests     []string         `json:"digests"`
-	StateSigs   []string         `json:"state_sigs"`
-	Nontrivial  []string         `json:"nontrivial"`
-	Samples     []string         `json:"samples"`
-	PerScenario map[string]int   `json:"per_scenario"`
-	Policies    map[string]int   `json:"policies"`
-	Foreign     int              `json:"foreign_failures"`
-	ForeignSig  map[string]int   `json:"foreign_sigs"`
+	Kind        string            `json:"kind"`
+	Runs        int               `json:"runs"`
+	Steps       int64             `json:"steps"`
+	Points      int64             `json:"points"`
+	SimMs       int64             `json:"sim_ms"`
+	WallUs      int64             `json:"wall_us"`
+	Counters    map[string]int64  `json:"counters"`
+	Digests     []string          `json:"digests"`
+	StateSigs   []string          `json:"state_sigs"`
+	Nontrivial  []string          `json:"nontrivial"`
+	Samples     []string          `json:"samples"`
+	PerScenario map[string]int    `json:"per_scenario"`
+	Policies    map[string]int    `json:"policies"`
+	Foreign     int               `json:"foreign_failures"`
+	ForeignSig  map[string]int    `json:"foreign_sigs"`
 	ForeignEx   map[string]string `json:"foreign_examples"`
-	HarnessErrs []string         `json:"harness_errs"`
+	HarnessErrs []string          `json:"harness_errs"`
 }
 
 type Job struct {
@@ -439,7 +439,7 @@ func doCheck(scratch, prop, tier string) int {
 				if mr := envInt("VERIF_MAXRUNS", 0); mr > 0 {
 					job.Count = (mr + workers - 1) / workers
 				}
-				lines, err := runWorker(bin, scratch, job, time.Duration(per*float64(time.Second))+150*time.Second)
+				lines, err := runWorker(bin, scratch, job, time.Duration(per*float64(time.Second))+300*time.Second)
 				mu.Lock()
 				defer mu.Unlock()
 				if err != nil && trouble == "" {
@@ -707,32 +707,32 @@ func writeEvidence(prop, tier string, seed uint64, meta PropMeta, a *agg, violat
 		perHour = float64(a.sum.Runs) / wall * 3600
 	}
 	cov := map[string]any{
-		"evaluations":         a.sum.Runs,
-		"distinct_nontrivial": len(a.nontriv),
-		"rule":                meta.Rule,
-		"samples":             samples,
-		"exhaustive":          false,
-		"simulated_runs":      a.sum.Runs,
-		"runs_per_hour":       int64(perHour),
-		"seeds_per_hour":      int64(perHour),
-		"simulated_seconds":   float64(a.sum.SimMs) / 1000,
-		"scheduler_steps":     a.sum.Steps,
-		"yield_points":        a.sum.Points,
-		"distinct_schedules":  len(a.digests),
-		"distinct_states":     len(a.sigs),
-		"distinct_measure":    "schedule = FNV hash chain over (step, task id, yield site, kind) of every baton grant; state = scenario-specific digest of the final abstract state; distinct_nontrivial = distinct schedules among runs the scenario marked non-trivial (see rule)",
-		"faults_fired":        faults,
-		"probes_hit":          probes,
-		"counters":            other,
-		"scenarios":           a.sum.PerScenario,
-		"scheduling_policies": a.sum.Policies,
+		"evaluations":                a.sum.Runs,
+		"distinct_nontrivial":        len(a.nontriv),
+		"rule":                       meta.Rule,
+		"samples":                    samples,
+		"exhaustive":                 false,
+		"simulated_runs":             a.sum.Runs,
+		"runs_per_hour":              int64(perHour),
+		"seeds_per_hour":             int64(perHour),
+		"simulated_seconds":          float64(a.sum.SimMs) / 1000,
+		"scheduler_steps":            a.sum.Steps,
+		"yield_points":               a.sum.Points,
+		"distinct_schedules":         len(a.digests),
+		"distinct_states":            len(a.sigs),
+		"distinct_measure":           "schedule = FNV hash chain over (step, task id, yield site, kind) of every baton grant; state = scenario-specific digest of the final abstract state; distinct_nontrivial = distinct schedules among runs the scenario marked non-trivial (see rule)",
+		"faults_fired":               faults,
+		"probes_hit":                 probes,
+		"counters":                   other,
+		"scenarios":                  a.sum.PerScenario,
+		"scheduling_policies":        a.sum.Policies,
 		"aborted_by_foreign_failure": a.sum.Foreign,
 		"foreign_failure_kinds":      a.sum.ForeignSig,
 		"foreign_failure_examples":   a.sum.ForeignEx,
-		"components_real":     meta.Real,
-		"components_stub":     meta.Stub,
-		"worker_cpu_seconds":  runWall,
-		"known_findings_seen": known,
+		"components_real":            meta.Real,
+		"components_stub":            meta.Stub,
+		"worker_cpu_seconds":         runWall,
+		"known_findings_seen":        known,
 	}
 	if trouble != "" {
 		cov["trouble"] = trouble
